@@ -126,17 +126,18 @@ def gen_scenarios(tier, seed):
     # C: timeouts: gaps are either <= timeout/10 or >= 10x timeout
     for i in range(16 * scale):
         T = rng.choice([300, 400])
-        long_gap = rng.below(2)
+        # stratified, not drawn: every (gap, event flags, stop/continue on timeout) combination occurs in every run
+        long_gap = i % 2
         P = 600
         fr = fragments(rng, 300, 60, [0, 100, (T * 1000) // 20])
         if long_gap:
             fr.append((50, T * 1000 * 10))
         fr += fragments(rng, P - sum(n for n, _ in fr), 60, [0, 100])
         out.append(mk(rng, family="timeout-long-gap" if long_gap else "timeout-no-gap", S=128, win_o=0, win_t=128,
-                      event_flags=rng.choice([0, TP_F_DISPATCH]),
-                      # every fourth: the task comes from tp_task_connect_create() and its callback switches the handler
-                      task_flags=(0x40 if i % 4 == 1 else rng.choice([0, TASK_F_EVERY_READ])), timeout_ms=T,
-                      on_timeout=rng.below(2), payload=rng.bytes(P), frags=fr, close_mode=1, quiesce_ms=40))
+                      event_flags=[0, TP_F_DISPATCH][(i // 2) % 2],
+                      # every fifth: the task comes from tp_task_connect_create() and its callback switches the handler
+                      task_flags=(0x40 if i % 5 == 1 else rng.choice([0, TASK_F_EVERY_READ])), timeout_ms=T,
+                      on_timeout=(i // 4) % 2, payload=rng.bytes(P), frags=fr, close_mode=1, quiesce_ms=40))
     # D: write task: window of the buffer must reach the peer byte-identical, slow peer, tiny send buffer
     for i in range(40 * scale):
         S = rng.choice([1, 16, 300, 70000, 400000])
